@@ -1,6 +1,8 @@
 package props
 
 import (
+	"go/token"
+	"go/ast"
 	"crypto/sha256"
 	"encoding/hex"
 	"encoding/pem"
@@ -226,10 +228,10 @@ func (env *Env) c02PoolWriters(rootsPool, interPool string) {
 				case recv.Op == flow.OpCall && recv.Name == interPool && interPool != "":
 					r.OK("C02/R1/pool-writer", key+"#intermediates", where, "intermediates pool (not a trust anchor)")
 				case load.FuncName(fn) == "verify.getTrustedRoots" && name == "(*crypto/x509.CertPool).AppendCertsFromPEM" && recv.Op == flow.OpCall && strings.HasPrefix(recv.Name, "crypto/x509.NewCertPool#"):
-					rot := flow.T(flow.OpParam, "verify.getTrustedRoots#0:rot")
+					rot := flow.T(flow.OpParam, "verify.getTrustedRoots#0")
 					rotAlt := func(t *flow.Term, b pat.Bind) bool {
 						// the parameter as seen from the unknown context (callers) or own
-						return strings.Contains(t.String(), ":rot")
+						return t.Op == flow.OpParam && (t.Name == "verify.getTrustedRoots#0" || t.Name == "verify.RootOfTrustToOptions#0")
 					}
 					_ = rot
 					fromFile := pat.Res("0", pat.Call("os.ReadFile", pat.Op(flow.OpIndex, "", pat.Field(rotAlt, "CabundlePaths"), pat.Any())))
@@ -255,8 +257,8 @@ func (env *Env) c02EmbeddedRoot() {
 	if sp == nil {
 		return
 	}
-	g, _ := sp.Members["trustedRootCertificate"].(*ssa.Global)
-	emb, _ := sp.Members["defaultRootCertByte"].(*ssa.Global)
+	g := env.P.Global("verify", "trustedRootCertificate")
+	emb := env.P.Global("verify", "defaultRootCertByte")
 	if g == nil || emb == nil {
 		r.Undecided("C02/R2/embedded", "globals", "", "verify.trustedRootCertificate / defaultRootCertByte not found")
 		return
@@ -285,8 +287,7 @@ func (env *Env) c02EmbeddedRoot() {
 	}
 	// go:embed directive and the file's fingerprint
 	pemPath := filepath.Join(env.P.Cfg.Dir, "verify", "trusted_root.pem")
-	src, _ := os.ReadFile(filepath.Join(env.P.Cfg.Dir, "verify", "verify.go"))
-	if !strings.Contains(string(src), "//go:embed trusted_root.pem\n\tdefaultRootCertByte []byte") {
+	if !embedDirectiveOf(env.P, emb, "trusted_root.pem") {
 		r.Fail("C02/R2/embedded", "go-embed", "verify/verify.go", "defaultRootCertByte must be declared with //go:embed trusted_root.pem")
 	} else if b, err := os.ReadFile(pemPath); err != nil {
 		r.Fail("C02/R2/embedded", "go-embed", "verify/trusted_root.pem", "embedded root file missing")
@@ -381,4 +382,55 @@ func (env *Env) c02RootOfTrust() {
 	} else {
 		r.OK("C02/R4", "both-arms", env.P.Pos(fn.Pos()), "nil roots and configured pool alternatives both present")
 	}
+}
+
+// embedDirectiveOf: the declaration of package variable g carries a
+// //go:embed directive naming file (resolved through the syntax tree and the
+// type-checker's definition of g, not through source text).
+func embedDirectiveOf(p *load.Program, g *ssa.Global, file string) bool {
+	obj := g.Object()
+	for _, pkg := range p.Pkgs {
+		if pkg.Types != g.Pkg.Pkg {
+			continue
+		}
+		for _, f := range pkg.Syntax {
+			for _, d := range f.Decls {
+				gd, ok := d.(*ast.GenDecl)
+				if !ok || gd.Tok != token.VAR {
+					continue
+				}
+				for _, sp := range gd.Specs {
+					vs, ok := sp.(*ast.ValueSpec)
+					if !ok {
+						continue
+					}
+					for _, n := range vs.Names {
+						if pkg.TypesInfo.Defs[n] != obj {
+							continue
+						}
+						docs := []*ast.CommentGroup{vs.Doc}
+						if !gd.Lparen.IsValid() {
+							docs = append(docs, gd.Doc)
+						}
+						for _, cg := range docs {
+							if cg == nil {
+								continue
+							}
+							for _, c := range cg.List {
+								if strings.HasPrefix(c.Text, "//go:embed ") {
+									for _, w := range strings.Fields(c.Text)[1:] {
+										if w == file {
+											return true
+										}
+									}
+								}
+							}
+						}
+						return false
+					}
+				}
+			}
+		}
+	}
+	return false
 }
